@@ -1,14 +1,14 @@
-\* Universe H (thorough): histories of 4 operations, three values.
+\* Universe H (thorough): one + application, then every history of 4 operations (assign of 0 or 9/4, undo, undo on the term, set_gekko towards a new model or model 2).
 SPECIFICATION Spec
 CONSTANTS
   Consts <- ConstsH
   Scals <- ScalsH
-  Vals <- ValsB
+  Vals <- ValsA
   Inits <- InitsA
-  BinOps <- TwoBin
+  BinOps <- OneBin
   WithSqrt = FALSE
   WithRaw = FALSE
-  SameNames = {0, 1}
+  SameNames = {0}
   MaxBuild = 1
   MaxOps = 4
   OpKinds = {"assign", "undo", "undot", "rehome"}
